@@ -2,7 +2,7 @@ use super::SoapBinding;
 use crate::{
     error::WriterResult,
     model::{
-        Namespace,
+        Namespace, rust_str,
         field::as_field_name,
         helpers::{write_check_restrictions_footer, write_check_restrictions_header},
     },
@@ -71,7 +71,7 @@ where
         )?;
     }
 
-    writeln!(writer, "    let url = \"{action}\";")?;
+    writeln!(writer, "    let url = \"{}\";", rust_str(action.as_str()))?;
     writeln!(writer, "    helpers::send_soap_request(url, credentials, req).await")?;
     writeln!(writer, "}}")?;
 
@@ -95,7 +95,7 @@ where
     }
     let namespaces = xmlns
         .iter()
-        .map(|(k, v)| format!("\"{k}\" = \"{v}\""))
+        .map(|(k, v)| format!("\"{k}\" = \"{}\"", rust_str(v)))
         .collect::<Vec<String>>()
         .join(", ");
 
@@ -115,10 +115,11 @@ where
                 let abbreviation = namespace.abbreviation.as_str();
                 writeln!(
                     writer,
-                    "#[yaserde(prefix = \"{abbreviation}\", rename = \"{part_name}\")]"
+                    "#[yaserde(prefix = \"{abbreviation}\", rename = \"{}\")]",
+                    rust_str(part_name)
                 )?;
             } else {
-                writeln!(writer, "    #[yaserde(rename = \"{part_name}\")]")?;
+                writeln!(writer, "    #[yaserde(rename = \"{}\")]", rust_str(part_name))?;
             }
 
             // todo: we should check if the "mustUnderstand" == 1 to make the field required
@@ -164,11 +165,12 @@ where
         let abbreviation = namespace.abbreviation.as_str();
         writeln!(
             writer,
-            "    #[yaserde(prefix = \"{abbreviation}\", rename = \"{xml_name}\")]"
+            "    #[yaserde(prefix = \"{abbreviation}\", rename = \"{}\")]",
+            rust_str(xml_name)
         )?;
         writeln!(writer, "    pub {body_field_name}: {mod_name}::{body},",)?;
     } else {
-        writeln!(writer, "    #[yaserde(rename = \"{xml_name}\")]")?;
+        writeln!(writer, "    #[yaserde(rename = \"{}\")]", rust_str(xml_name))?;
         writeln!(writer, "    pub {body_field_name}: {body},")?;
     }
     writeln!(writer, "}}")?;
